@@ -557,6 +557,59 @@ func vfxFlatValue(v interface{}, msgs []*ConsumerMessage, parse bool) map[vfxTP]
 }
 
 // vfxPartialFlag tells whether the decoded value says "incomplete" (class histogram only).
+func vfxSetPartial(ms *MessageSet) bool {
+	if ms == nil {
+		return false
+	}
+	if ms.PartialTrailingMessage || ms.OverflowMessage {
+		return true
+	}
+	for _, blk := range ms.Messages {
+		if blk != nil && blk.Msg != nil && vfxSetPartial(blk.Msg.Set) {
+			return true
+		}
+	}
+	return false
+}
+
+func vfxRecordsPartial(r *Records) bool {
+	if r == nil {
+		return false
+	}
+	return vfxSetPartial(r.MsgSet) || (r.RecordBatch != nil && r.RecordBatch.PartialTrailingRecord)
+}
+
+// vfxAnyPartial looks for an "incomplete" signal anywhere in a decoded value.
+func vfxAnyPartial(v interface{}) bool {
+	switch x := v.(type) {
+	case *MessageSet:
+		return vfxSetPartial(x)
+	case *RecordBatch:
+		return x.PartialTrailingRecord
+	case *Records:
+		return vfxRecordsPartial(x)
+	case *Message:
+		return vfxSetPartial(x.Set)
+	case *FetchResponse:
+		for _, parts := range x.Blocks {
+			for _, blk := range parts {
+				if blk == nil {
+					continue
+				}
+				if blk.Partial {
+					return true
+				}
+				for _, rs := range blk.RecordsSet {
+					if vfxRecordsPartial(rs) {
+						return true
+					}
+				}
+			}
+		}
+	}
+	return false
+}
+
 func vfxPartialFlag(v interface{}) string {
 	partial := false
 	switch x := v.(type) {
@@ -1274,7 +1327,12 @@ func vfxCheckClause(c *vfxCase, o *vfxOutcome, r *vfcore.Rec) *vfcore.Failure {
 			return nil
 		}
 		bad := "the altered length delimits a unit inside the buffer (no truncation) and disagrees with the data, yet no error was returned"
-		return &vfcore.Failure{Symptom: "size-lie-not-detected", Message: fmt.Sprintf("%s %s v%d (%s): %s; input %s, original %s", c.Entry, c.Type, c.Version, c.Mut, bad, vfxHex(c.Input), vfxHex(c.Orig)),
+		sym := "size-lie-not-detected"
+		if c.Clause == "count" {
+			sym = "count-lie-not-detected"
+			bad = fmt.Sprintf("the record count disagrees with a complete, CRC-valid records section (or bytes follow the counted records), yet no error was returned (incomplete signalled anywhere in the value: %v)", vfxAnyPartial(o.Value))
+		}
+		return &vfcore.Failure{Symptom: sym, Message: fmt.Sprintf("%s %s v%d (%s): %s; input %s, original %s", c.Entry, c.Type, c.Version, c.Mut, bad, vfxHex(c.Input), vfxHex(c.Orig)),
 			History: vfxHist(c, o, bad)}
 	}
 	want := vfxFlatValue(base.Value, base.Msgs, parse)
@@ -1345,7 +1403,12 @@ func vfxCheckClause(c *vfxCase, o *vfxOutcome, r *vfcore.Rec) *vfcore.Failure {
 			break
 		}
 	}
-	if bad == "" && vfxGroup(c.Entry) == "records" && vfxPartialFlag(o.Value) == "+no-partial-flag" && !bytes.Equal(vfxJSON(got), vfxJSON(want)) {
+	if bad == "" && (c.Clause == "inner" || c.Clause == "count") && !parse && !vfxAnyPartial(o.Value) && !bytes.Equal(vfxJSON(got), vfxJSON(want)) {
+		// a complete, CRC-valid unit: a shorter record list is only acceptable together with
+		// an "incomplete" signal somewhere in the decoded value
+		bad = "records were dropped from a complete, CRC-valid unit without an error and without any partial-trailing flag"
+	}
+	if bad == "" && vfxGroup(c.Entry) == "records" && vfxPartialFlag(o.Value) == "+no-partial-flag" && !vfxAnyPartial(o.Value) && !bytes.Equal(vfxJSON(got), vfxJSON(want)) {
 		// below the fetch level a decoder that drops records must say so (partial trailing / overflow flag)
 		bad = "records were dropped without an error and without the partial-trailing flag"
 	}
@@ -1363,8 +1426,11 @@ func vfxCheckClause(c *vfxCase, o *vfxOutcome, r *vfcore.Rec) *vfcore.Failure {
 		return nil
 	}
 	sym := "wrong-records"
-	if c.Clause == "crc" {
+	switch c.Clause {
+	case "crc":
 		sym = "crc-not-detected"
+	case "count":
+		sym = "count-lie-not-detected"
 	}
 	return &vfcore.Failure{Symptom: sym, Message: fmt.Sprintf("%s %s v%d (%s): decode returned no error and %s; input %s, original %s", c.Entry, c.Type, c.Version, c.Mut, bad, vfxHex(c.Input), vfxHex(c.Orig)),
 		History: vfxHist(c, o, bad)}
